@@ -929,7 +929,7 @@ func ruleFarLimit(c *Ctx) {
 }
 
 func init() {
-	register(&Rule{ID: "R12.sorted-lookup-consistent", Props: []string{"C12", "C01"}, Floor: 2,
+	register(&Rule{ID: "R12.sorted-lookup-consistent", Props: []string{"C12", "C01"}, Floor: 1,
 		Text: "the field list is ordered by name and List.Get leaves its scan early: every test `Y < entryName` whose true edge ends the scan and whose false edge leads to a match `entryName == X` (the true edge of which returns the entry) compares the same key that is matched (Y and X are the same expression) — an early exit taken on a shorter key (the part of a dotted name before the dot, say) ends the scan before the entry that would match the full name, and the field then reads as 0 in every WHERE / WHEREIN filter and in FGET",
 		Run:  ruleSortedLookupConsistent})
 }
@@ -973,9 +973,22 @@ func ruleSortedLookupConsistent(c *Ctx) {
 			continue
 		}
 		at := Loc{b, len(b.Nodes) - 1, b.Nodes[len(b.Nodes)-1]}
-		if be, ok := ast.Unparen(cond).(*ast.BinaryExpr); ok && be.Op == token.EQL {
+		if be, ok := ast.Unparen(cond).(*ast.BinaryExpr); ok && (be.Op == token.EQL || be.Op == token.NEQ) {
 			if t := info.TypeOf(be.X); t != nil && isStringType(t) {
-				if returns, _ := reachBlockAvoiding2(fg, b.Succs[0], func(l Loc) bool { return isReturn(l.Node) }); returns {
+				// the edge on which the two are equal: the true edge of ==, the false edge of !=
+				eqSucc := b.Succs[0]
+				if be.Op == token.NEQ {
+					eqSucc = b.Succs[1]
+				}
+				if returns, _ := reachBlockAvoiding2(fg, eqSucc, func(l Loc) bool {
+					r, ok := l.Node.(*ast.ReturnStmt)
+					if !ok || len(r.Results) != 1 {
+						return false
+					}
+					// a return of a found entry, not of the package's zero value
+					_, isIdent := ast.Unparen(r.Results[0]).(*ast.Ident)
+					return !isIdent
+				}); returns {
 					matches = append(matches, site{b, at, be, cond})
 				}
 			}
